@@ -486,10 +486,6 @@ func (p *parser) parseForExpression() ast.Expression {
 
 	expression.Block = p.parseBlockStatement()
 
-	if p.curTokenIs(token.RBRACE) {
-		p.nextToken()
-	}
-
 	return expression
 }
 
